@@ -372,7 +372,25 @@ def _idempotence(ctx, e2e):
         field = FT.invariant_field(rng, system, nrows)
         S = FT.superset(rng, FT.minimal_sufficient(rng, system), 0.3)
         try:
-            if i % 2:
+            if i % 6 == 5 and system != "triclinic":
+                # a redundant table that is consistent only within the residual tolerance: the first filling is a least-squares
+                # compromise that may still miss the invariant subspace slightly (C09 allows that); filling it again can move it
+                # by no more than that remaining distance
+                S = FT.superset(rng, FT.minimal_sufficient(rng, system), 0.7)
+                noisy = field.copy()
+                noisy[:, S] += rng.normal(0, 0.03, size=(nrows, len(S)))
+                r1 = fill_cij(FT.make_frame(noisy, S, rng, shuffle=True), system)
+                r2 = fill_cij(r1.copy(deep=True), system)
+                m1, m2 = FT.frame_moduli(r1), FT.frame_moduli(r2)
+                x1 = numpy.zeros((nrows, 21))
+                for nm_, col_ in m1.items():
+                    x1[:, FT.NAMES.index(nm_)] = col_
+                dist = max(numpy.abs(x1[r_] - laue.project(system, x1[r_])).max() for r_ in range(nrows))
+                moved = max((numpy.abs(m2[nm_] - m1[nm_]).max() for nm_ in m1 if nm_ in m2), default=0.0)
+                ctx.maxi("refill_move/remaining_distance(noisy tables)", moved / (dist + 1e-9))
+                same = set(m1) == set(m2) and moved <= dist * 1.5 + 1e-9
+                ctx.count("noisy_refills_judged")
+            elif i % 2:
                 r1 = fill_cij(FT.make_frame(field, S, rng, shuffle=True), system)
                 r2 = fill_cij(r1.copy(deep=True), system)
                 same = list(r1.columns) == list(r2.columns) and numpy.allclose(r1.to_numpy(float), r2.to_numpy(float), rtol=1e-12, atol=1e-9)
